@@ -462,9 +462,29 @@ impl ElfLinker {
                         "Could not load R_MIPS_REL32 at 0x{:x}",
                         dynrel.r_offset + elf.base_address()
                     ))?;
+                // The word is an addend. Add the address of the symbol the
+                // relocation names: the (already relocated) GOT entry of a
+                // global symbol, st_value + base for a local one, or just
+                // the base when it names no symbol.
+                let r_sym = dynrel.r_sym as u64;
+                let symbol_address = if r_sym == 0 {
+                    elf.base_address() as u32
+                } else if r_sym < gotsym {
+                    let sym = dynsyms
+                        .get(dynrel.r_sym)
+                        .ok_or(format!("Could not get symbol {}", r_sym))?;
+                    (sym.st_value + elf.base_address()) as u32
+                } else {
+                    let got_address =
+                        pltgot + elf.base_address() + (local_gotno + (r_sym - gotsym)) * 4;
+                    self.memory.get32(got_address).ok_or(format!(
+                        "Could not load GOT entry at 0x{:x} for R_MIPS_REL32",
+                        got_address
+                    ))?
+                };
                 self.memory.set32(
                     dynrel.r_offset + elf.base_address(),
-                    value + (elf.base_address() as u32),
+                    value + symbol_address,
                 )?;
             }
         }
